@@ -15,13 +15,17 @@ import tempfile
 import time
 
 VERIF = os.path.dirname(os.path.dirname(os.path.abspath(__file__)))
-REPO = "/repo"
+# the tree under test: /repo's working tree.  VERIF_REPO names a scratch copy instead (used only by bin/seedtest
+# to try seeded changes while /repo itself stays untouched, e.g. during a long run against /repo)
+REPO = os.environ.get("VERIF_REPO", "/repo").rstrip("/")
+ALT = REPO != "/repo"
 SPEC = os.path.join(VERIF, "spec")
 HARNESS = os.path.join(VERIF, "harness")
 CACHE = os.path.join(VERIF, ".cache")
 EVIDENCE = os.path.join(VERIF, "evidence")
 REPLAYS = os.path.join(VERIF, "replays")
-WV = os.path.join(HARNESS, "target", "release", "wv")
+TARGET = os.path.join(HARNESS, "target" if not ALT else "target-alt")
+WV = os.path.join(TARGET, "release", "wv")
 WORKERS = int(os.environ.get("VERIF_WORKERS", "8"))
 SEED = int(os.environ.get("VERIF_SEED", "1"))
 
@@ -72,6 +76,28 @@ def spec_hash():
     return _hash_cache["spec"]
 
 
+def module_hash(module, *cfgs):
+    """hash of a TLA+ module, the modules it extends / instantiates (transitively, within spec/) and the given
+    config files: the cache key of whatever TLC generates from it (an edit of an unrelated module keeps it)"""
+    key = "mod:" + module + ":" + ",".join(cfgs)
+    if key not in _hash_cache:
+        seen, todo = set(), [module]
+        while todo:
+            m = todo.pop()
+            path = os.path.join(SPEC, m + ".tla")
+            if m in seen or not os.path.exists(path):
+                continue
+            seen.add(m)
+            with open(path) as f:
+                text = f.read()
+            for line in re.findall(r"^\s*EXTENDS\s+(.*)$", text, re.M):
+                todo += [x.strip() for x in line.split(",")]
+            todo += re.findall(r"INSTANCE\s+(\w+)", text)
+        files = [os.path.join(SPEC, m + ".tla") for m in seen] + [os.path.join(SPEC, c) for c in cfgs]
+        _hash_cache[key] = sha_files(files)
+    return _hash_cache[key]
+
+
 def harness_hash():
     if "harness" not in _hash_cache:
         files = walk_files(os.path.join(HARNESS, "src")) + [os.path.join(HARNESS, "Cargo.toml")]
@@ -87,12 +113,13 @@ def cache_dir(*parts):
 
 def prune_cache(keep=6):
     """keep the cache bounded: only the most recently used observation directories survive"""
-    base = os.path.join(CACHE, "obs")
-    if not os.path.isdir(base):
-        return
-    ds = sorted((os.path.join(base, d) for d in os.listdir(base)), key=os.path.getmtime, reverse=True)
-    for d in ds[keep:]:
-        shutil.rmtree(d, ignore_errors=True)
+    for sub, n in (("obs", keep), ("gen", 12)):
+        base = os.path.join(CACHE, sub)
+        if not os.path.isdir(base):
+            continue
+        ds = sorted((os.path.join(base, d) for d in os.listdir(base)), key=os.path.getmtime, reverse=True)
+        for d in ds[n:]:
+            shutil.rmtree(d, ignore_errors=True)
 
 
 _built = False
@@ -106,6 +133,8 @@ def build_harness():
     env = dict(os.environ)
     env["CARGO_NET_OFFLINE"] = "true"
     cmd = ["cargo", "build", "--release", "--offline"]
+    if ALT:
+        cmd += ["--config", 'paths=["%s"]' % REPO, "--target-dir", TARGET]
     t0 = time.time()
     with open(os.path.join(cache_dir(), "cargo.lock"), "w") as lock:
         import fcntl
@@ -126,8 +155,45 @@ TLC_JAVA = ["java", "-XX:+UseParallelGC", "-Xss64m", "-cp",
             "/opt/veriftools/tla/tla2tools.jar:/opt/veriftools/tla/CommunityModules-deps.jar", "tlc2.TLC"]
 
 
+SHARD = int(os.environ.get("VERIF_SHARD", "100000"))
+
+
 def tlc(module, cfg, env=None, workers=None, timeout=900, extra=(), java_opts=()):
-    """run TLC; returns (stdout text, stats dict). Raises ToolError on timeout or TLC failure."""
+    """run TLC; returns (stdout text, stats dict). Raises ToolError on timeout or TLC failure.
+    A large record file (env OBS / TRACE / TRACES, or REL when present: its records refer to OBS by id) is
+    split into shards of SHARD records that are checked one after the other: records are independent (every
+    specification picks one record in Init), so the union of the runs is the run over the whole file; the
+    timeout applies per shard."""
+    env = dict(env or {})
+    key = "REL" if "REL" in env else next((k for k in ("OBS", "TRACE", "TRACES") if k in env), None)
+    if key and env[key].endswith((".ndjson", ".rel")) and os.path.getsize(env[key]) > 1 << 20:
+        with open(env[key]) as f:
+            lines = f.readlines()
+        if len(lines) > SHARD * 1.3:
+            outs = []
+            total = {"wall_s": 0.0, "generated": 0, "distinct": 0, "depth": 0, "ok": True, "rc": 0, "shards": 0}
+            for i in range(0, len(lines), SHARD):
+                part = os.path.join(cache_dir("tmp"), "shard-%d-%d.ndjson" % (os.getpid(), i // SHARD))
+                with open(part, "w") as f:
+                    f.writelines(lines[i:i + SHARD])
+                try:
+                    out, st = _tlc_once(module, cfg, dict(env, **{key: part}), workers, timeout, extra, java_opts)
+                finally:
+                    os.remove(part)
+                outs.append(out)
+                total["shards"] += 1
+                for k in ("wall_s", "generated", "distinct"):
+                    total[k] += st[k]
+                total["depth"] = max(total["depth"], st["depth"])
+                if not st["ok"]:
+                    total["ok"], total["rc"], total["tail"] = False, st["rc"], st.get("tail", "")
+                    break
+            log("[tlc] %s: %d records in %d shards (%.0fs)" % (cfg, len(lines), total["shards"], total["wall_s"]))
+            return "\n".join(outs), total
+    return _tlc_once(module, cfg, env, workers, timeout, extra, java_opts)
+
+
+def _tlc_once(module, cfg, env, workers, timeout, extra, java_opts):
     meta = scratch()
     e = dict(os.environ)
     e.update(env or {})
